@@ -238,9 +238,8 @@ Section Endpoints.
 
   (* ---- get-entries *)
 
-  Lemma number_indices {A} (l : list A) : forall s, any_index_bad s 0 (map (fun x => (fst x, true)) (number s l)) = false
-    -> True.
-  Proof. trivial. Qed.
+  Lemma map_number_snd {A B} (f : A -> B) (l : list A) : forall s, map (fun x : Z * A => f (snd x)) (number s l) = map f l.
+  Proof. induction l as [|x l IH]; intros s; cbn [number map snd]; [reflexivity|]. rewrite IH. reflexivity. Qed.
 
   Lemma any_index_ok {A} (l : list A) : forall s i,
     0 <= s -> 0 <= i -> s + i + Z.of_nat (length l) <= two63 ->
@@ -260,7 +259,7 @@ Section Endpoints.
     exists en, parse_range s0 e0 (c_maxr cfg) (c_align cfg) = Some (s0, en) /\ s0 <= en <= e0 /\ en - s0 + 1 <= c_maxr cfg /\
       let cnt := Z.min (en - s0 + 1) (Z.of_N (bsize (be st)) - s0) in
       fe_entries st ps pe
-      = ok200 (BEntries (map (fun lf => (lv lf, lx lf)) (firstn (Z.to_nat cnt) (skipn (Z.to_nat s0) (bs (be st)))))).
+      = ok200 (BEntries (map (fun lf : bleaf => (lv lf, lx lf)) (firstn (Z.to_nat cnt) (skipn (Z.to_nat s0) (bs (be st)))))).
   Proof.
     intros Hs He H0 Hsn.
     pose proof (parse_int64_range _ _ He) as [_ Hemax].
@@ -290,9 +289,7 @@ Section Endpoints.
       pose proof (parse_int64_range _ _ He) as [_ Hm]. rewrite max_i64_eq in Hm. unfold cnt in Hlen. lia. }
     rewrite Hidx.
     unfold finish, env_ok. cbn [write_ok]. cbn [serve_guard_non200 Z.eqb negb status].
-    f_equal. f_equal.
-    clear. generalize s0. induction ls as [|x l IH]; intros s; cbn [number map snd]; [reflexivity|].
-    rewrite IH. reflexivity.
+    rewrite <- (map_number_snd (fun lf : bleaf => (lv lf, lx lf)) ls s0). reflexivity.
   Qed.
 
   (* ---- get-sth *)
